@@ -70,6 +70,27 @@ CHECKS = {
         note="No independent curve arithmetic. An accepted altered triple would be a forgery or SHA-512 collision (treated as impossible). Message search uses the library's SHA-512 and a harness big-integer mod L.",
         technique=TECH + "; channel-fault catalogue enumerated per sampled signature, closed-form verdicts",
     ),
+    "C16": dict(
+        level="exploration",
+        text="Cross-build replay: the simulator is built four times from the same tree (baseline = SSE2 ChaCha + portable SHA-256/BLAKE2, +sse4.1, +avx, +avx2; features the host CPU lacks are skipped and reported) and every binary executes the SAME seeds of hashbulk (SHA-224/256, BLAKE2b/2s with 1..=20 blocks per update at every alignment 0..31 after every partial-buffer fill, keyed/unkeyed), hashctx, ctrjump, streampos, aeadflow, hmacsplit, polysplit, lifecycle, ctrwrap and kdfprobe (HKDF/PBKDF2/scrypt/Argon2); per-run transcripts (FNV-128 of every byte the real code returned) are diffed against the baseline, a divergence is located to a run, ddmin-minimised with 'the two binaries disagree' as predicate and replayed in fresh processes. In every binary the active (SSE2) ChaCha engine is additionally run in lock-step with the portable engine (hook H3): init for every key/nonce length, rounds, add_back, counters, outputs.",
+        ref="DESIGN.md §4.10",
+        note="One seed is one execution whatever the compile-time dispatch selected. A defect shared by all paths changes all transcripts equally and is not C16's business. AVX-512/SHA-NI/aarch64 paths do not exist or are not reachable on this host.",
+        technique="deterministic simulation replayed across build configurations: same seeded schedules in 4 builds, transcript equality, ddmin with a two-binary oracle; engine lock-step in-process",
+    ),
+    "C17": dict(
+        level="exploration",
+        text="Cross-build replay across {default 64-bit limbs, --features force-32bits}. 'The library compiles' is checked for real (path dependency, no lint capping): a build failure is a violation with the compiler output as replay artefact. Then both binaries execute the same seeds of sigchannel (Ed25519 keygen/sign/verify verdict vector over the whole channel catalogue incl. S+kL and small-order forgeries), x25519hs (two-party handshake with substituted edge-value u-coordinates, raw curve25519/curve25519_base, ed25519::exchange) and arithprog (seeded straight-line programs over the public Fe/Scalar/Ge API inside the documented operand discipline); transcripts are diffed run by run, divergences minimised with the two binaries as oracle.",
+        ref="DESIGN.md §4.11",
+        note="arithprog is seeded program generation executed in two builds and diffed (nothing scheduled or faulted) and the evidence says so. Restricted to the API subset common to both backends; scalar::muladd is crate-private and reached through ed25519::signature only.",
+        technique="deterministic simulation replayed across the two limb backends: same seeded workloads in 2 builds, transcript equality, ddmin with a two-binary oracle; plus 'it compiles'",
+    ),
+    "C20": dict(
+        level="fault_enumeration",
+        text="Three build profiles of the simulator (plain release; release with overflow checks and debug assertions; dev) execute the same seeds. (1) misuse: the complete catalogue of invalid calls (45 entry-point families, 313 (entry, argument) pairs) is enumerated in every run, each call injected after a random valid history of the object concerned; every call must panic or return Err, none may return a value. (2) ctrwrap: BLAKE2 byte counters preset through hook H1 next to 2^32 / 2^64 and a fragmented history across the boundary: no panic, counter getter invariant after every op, digest equal to the one-call digest under the same preset. (3) every other scenario's valid operations (hash contexts, stream ciphers incl. counter jumps next to 2^32-1, DRG, Poly1305, AEAD, HMAC, lifecycle, Ed25519, X25519, curve programs, KDFs): any panic on a valid operation in any profile is a violation, and the transcripts of the checked and dev builds must equal the plain release one. Thorough tier adds a Miri run (bounds, alignment, initialisation) of ~90 seeded histories.",
+        ref="DESIGN.md §4.12",
+        note="The catalogue is enumerated completely (fault_enumeration); histories are sampled. A panic is observed through catch_unwind; an abort or fault kills the worker and is reported by the driver. Hash length counters (processed_bytes near 2^61) are not preset (no hook H4). Miri runs with -Zmiri-disable-stacked-borrows (see DESIGN.md).",
+        technique="deterministic simulation with fault injection replayed across build profiles: enumerated misuse catalogue inside seeded valid histories, counter-preset clock jumps, transcript equality across 3 profiles",
+    ),
 }
 
 NOT_APPLICABLE = {
@@ -85,9 +106,6 @@ NOT_APPLICABLE = {
 
 # properties planned (DESIGN.md) but whose check is not registered yet: listed as not claimed, honestly
 PENDING = {
-    "C16": "not claimed yet: the simulation scenario planned in DESIGN.md §4.10 is not registered at this commit",
-    "C17": "not claimed yet: the simulation scenario planned in DESIGN.md §4.11 is not registered at this commit",
-    "C20": "not claimed yet: the simulation scenario planned in DESIGN.md §4.12 is not registered at this commit",
 }
 
 def main():
